@@ -958,6 +958,9 @@ package go9p
 
 //@ immutable Srv.ops by (*Srv).Start
 //@ immutable Srv.Upool by (*Srv).Start
+//@ immutable Srv.Msize by (*Srv).Start
+//@ immutable Srv.Dotu by (*Srv).Start
+//@ immutable Srv.Log by (*Srv).Start
 //@ immutable Conn.Srv by (*Srv).NewConn
 //@ immutable Conn.fidpool by (*Srv).NewConn
 //@ immutable Conn.reqs by (*Srv).NewConn
@@ -1660,3 +1663,44 @@ package go9p
 //@   at call((*Srv).readPost) assume req.Rc != nil && req.Rc.Type == 117 ==> req.Fid != nil
 //@   at call((*Srv).clunkPost) assume req.Fid != nil ==> req.Fid.Fconn != nil && req.Fid.Fconn.Srv != nil && req.Fid.refcount > -9223372036854775807
 //@   at call((*Srv).removePost) assume req.Fid != nil ==> req.Fid.Fconn != nil && req.Fid.Fconn.Srv != nil && req.Fid.refcount > -9223372036854775807
+
+// ---------------------------------------------------------------------------
+// Connection life cycle (C11, C12, C06)
+
+//@ iface ConnOps.ConnClosed(op, conn)
+//@   opt preserve F.Conn.Srv F.Srv.ops F.Conn.fidpool M.uint32.p.SrvFid.dom M.uint32.p.SrvFid.val
+//@   assigns  everything
+//@ iface ConnOps.ConnOpened(op, conn)
+//@   opt preserve M.uint32.p.SrvFid.dom M.uint32.p.SrvFid.val M.uint16.p.SrvReq.dom M.uint16.p.SrvReq.val F.Conn.conn
+//@   assigns  everything
+//@ iface StatsOps.statsRegister(op)
+//@   assigns  nothing
+//@ iface StatsOps.statsUnregister(op)
+//@   assigns  nothing
+//@ iface SrvFidOps.FidDestroy(op, fid)
+//@   opt preserve M.uint32.p.SrvFid.dom M.uint32.p.SrvFid.val
+//@   assigns  everything
+
+//@ func (*Conn).close(conn)
+//@   property C11 C06
+//@   requires conn != nil && conn.Srv != nil && nolocks() && poolok(conn)
+//@   ghost nclosed int = 0
+//@   at call(ConnOps.ConnClosed) requires [once] nclosed == 0 && arg1 == conn
+//@   at call(ConnOps.ConnClosed) ghost nclosed := nclosed + 1
+//@   at call(SrvFidOps.FidDestroy) requires [valid] arg1 != nil
+//@   ensures  implements(old(conn.Srv.ops), "ConnOps") ==> nclosed == 1
+//@   ensures  nclosed <= 1
+//@   loop 1
+//@     invariant conn != nil && nolocks() && nclosed <= 1 && (implements(old(conn.Srv.ops), "ConnOps") ==> nclosed == 1) && poolok(conn)
+
+//@ func (*Srv).Start(srv, ops) (ok)
+//@   property C12 C06
+//@   requires srv != nil
+//@   ensures  ok ==> srv.Msize >= 24 && srv.Upool != nil && srv.Log != nil && implements(srv.ops, "SrvReqOps") && srv.ops == ops
+//@   ensures  ok <==> implements(ops, "SrvReqOps")
+
+//@ func (*Srv).NewConn(srv, c)
+//@   property C12 C06 C11
+//@   requires srv != nil && c != nil && srv.Msize >= 24 && srv.Upool != nil && implements(srv.ops, "SrvReqOps") && nolocks() && srv.Maxpend >= 0 && srv.Msize <= 268435455
+//@   at call(net.Conn.RemoteAddr) ensures ret != nil
+//@   at go((*Conn).recv) requires [negotiable] arg0.Msize == srv.Msize && arg0.Dotu == srv.Dotu && arg0.Srv == srv
